@@ -498,6 +498,11 @@ fn amend_local_span(
     dangling: &mut HashMap<SpanId, Vec<DanglingItem>>,
     anchor: &Anchor,
 ) {
+    // Attach the events and properties of this set to its own spans first: copies of one set
+    // delivered in the same trace carry the same span ids and must not share their attachments.
+    let local_begin = spans.len();
+    let mut local_dangling: HashMap<SpanId, Vec<DanglingItem>> = HashMap::new();
+
     for span in local_spans.spans.iter() {
         let parent_id = if span.parent_id == SpanId::default() {
             parent_id
@@ -539,13 +544,13 @@ fn amend_local_span(
                         .map(|p| p.to_vec())
                         .unwrap_or_default(),
                 };
-                dangling
+                local_dangling
                     .entry(parent_id)
                     .or_default()
                     .push(DanglingItem::Event(event));
             }
             RawKind::Properties => {
-                dangling
+                local_dangling
                     .entry(parent_id)
                     .or_default()
                     .push(DanglingItem::Properties(
@@ -556,6 +561,11 @@ fn amend_local_span(
                     ));
             }
         }
+    }
+
+    mount_danglings(&mut spans[local_begin..], &mut local_dangling);
+    for (span_id, items) in local_dangling {
+        dangling.entry(span_id).or_default().extend(items);
     }
 }
 
